@@ -210,6 +210,43 @@ func c09(r *hx.Run, onlyCrash bool) {
 			parseCase(r, fmt.Sprintf("@r:%d:a%x:p632.%x", b.id, x, p), patchBytes(append(append([]byte{}, b.raw...), x...), 632, p), onlyCrash, "size-into-extra")
 		}
 	}
+	// size-consistent truncations: the input ends n bytes into the signed data and EVERY enclosing size field says so (signed
+	// data size, certification data size, PCK chain size): the outer length checks pass, each nested parser meets an input
+	// that ends exactly where (or just after) one of its own fields begins
+	for i, b := range bases {
+		if b.name == "synthbig" || (!thorough && i > 2) {
+			continue
+		}
+		sd, qc := 636, 636+134
+		chain := qc + 456 + b.authLen
+		for n := sd; n <= len(b.raw); n++ {
+			if n > chain+24 && n < len(b.raw)-2 && !thorough && n%64 != 0 {
+				continue
+			}
+			raw := append([]byte{}, b.raw[:n]...)
+			spec := fmt.Sprintf("@r:%d:t%d", b.id, n)
+			patch := func(off int, v uint64, width int) {
+				if off+width <= len(raw) {
+					p := leBytes(v, width)
+					raw = patchBytes(raw, off, p)
+					spec += fmt.Sprintf(":p%d.%x", off, p)
+				}
+			}
+			patch(632, uint64(n-sd), 4)
+			if n >= qc {
+				patch(sd+130, uint64(n-qc), 4)
+			}
+			if n >= chain {
+				patch(chain-4, uint64(n-chain), 4)
+			}
+			parseCase(r, spec, raw, onlyCrash, "size-consistent-truncation")
+			// the same with the authentication-data size reduced to what is left (the chain header then sits in the auth data's place)
+			if n >= qc+450 && n < chain {
+				raw2 := patchBytes(raw, qc+448, leBytes(uint64(n-(qc+450)), 2))
+				parseCase(r, spec+fmt.Sprintf(":p%d.%x", qc+448, leBytes(uint64(n-(qc+450)), 2)), raw2, onlyCrash, "size-consistent-truncation")
+			}
+		}
+	}
 	// random and structure-aware mutants
 	nmut := 1500
 	if thorough {
@@ -255,6 +292,7 @@ func c09(r *hx.Run, onlyCrash bool) {
 		parseCase(r, hx.Hex(raw), raw, onlyCrash, "synthetic")
 	}
 	c09messages(r, rng, bases[0].raw, bases[1].raw, onlyCrash)
+	c09Shared(r, [][]byte{bases[0].raw, bases[1].raw, bases[2].raw, bases[3].raw})
 	r.Note("bases", len(bases))
 }
 
@@ -553,6 +591,51 @@ func c09messages(r *hx.Run, rng *rand.Rand, rawA, rawB []byte, onlyCrash bool) {
 	}
 }
 
+// c09Shared: the message the library's own parser returns, edited the way applications edit messages — one field is given a
+// new slice (same length, other content), the edited message is serialised, the old slice is put back.  Serialising must
+// not have touched the slice that was taken out (the caller still holds it), and the restored message must still serialise
+// to the bytes it was parsed from: whatever the fields share underneath, a serialisation only reads.
+func c09Shared(r *hx.Run, raws [][]byte) {
+	for qi, raw := range raws {
+		m, err := abi.QuoteToProto(append([]byte{}, raw...))
+		q, ok := m.(*pb.QuoteV4)
+		if err != nil || !ok {
+			panic("base quote does not parse")
+		}
+		for fi, f := range bytesFields(q) {
+			if len(*f) == 0 {
+				continue
+			}
+			old := *f
+			snap := append([]byte{}, old...)
+			nw := make([]byte, len(old))
+			for i := range nw {
+				nw[i] = old[i] ^ 0x5a
+			}
+			*f = nw
+			out1, err1 := safeSerialise(q)
+			*f = old
+			fail := ""
+			switch {
+			case err1 != nil && strings.HasPrefix(err1.Error(), "panic"):
+				fail = "crash in abi.QuoteToAbiBytes on a parsed message with one field replaced"
+			case !bytes.Equal(old, snap):
+				fail = fmt.Sprintf("serialising a parsed message in which byte field #%d had been replaced overwrote the slice the field held before (the caller still holds it)", fi)
+			default:
+				if out2, err2 := safeSerialise(q); err2 != nil || !bytes.Equal(out2, raw) {
+					fail = fmt.Sprintf("after an edited copy (byte field #%d replaced) was serialised, the parsed message no longer serialises to the bytes it was parsed from", fi)
+				} else if err1 == nil && bytes.Equal(out1, raw) {
+					fail = fmt.Sprintf("the serialisation of the message with byte field #%d replaced equals the original bytes (the field's new content was not used)", fi)
+				}
+			}
+			obs := "intact"
+			if fail != "" {
+				obs = "disturbed"
+			}
+			r.Emit(fmt.Sprintf("# C09.shared quote=%d field=%d len=%d", qi, fi, len(old)), obs, fail, fmt.Sprintf("shared|%d|%d", qi, fi), true, "shared-slices", "obs:"+obs)
+		}
+	}
+}
 
 // c09Kept: serialised quotes handed to earlier callers stay what they were when later quotes are serialised (the result of a
 // serialisation is the caller's: no scratch buffer shared between calls).
